@@ -39,7 +39,8 @@ class Ref:
     data[l][b] = object ndarray (nx, ny[, nz], nf), mins/maxs[l][b][f]."""
 
     def __init__(self, pid, ndims, fields, ncell0, boxes, layout=None, lo=None, dx0=None, time=0.5,
-                 steps=None, ref_line_extra=0, payload='sym', seed=0, nfiles_names=None, level_prefix='Level_', coord_sys=0):
+                 steps=None, ref_line_extra=0, payload='sym', seed=0, nfiles_names=None, level_prefix='Level_', coord_sys=0,
+                 hi=None, header_digits=None):
         self.pid = pid
         # the main Header names each level's directory ('<dir>/Cell'); AMReX lets the writer choose the prefix
         self.level_prefix = level_prefix
@@ -55,6 +56,18 @@ class Ref:
         self.ncell = [tuple(n * 2 ** l for n in ncell0) for l in range(self.nlev)]
         self.dx = [[d / 2 ** l for d in dx0] for l in range(self.nlev)]
         self.hi = [self.lo[d] + ncell0[d] * dx0[d] for d in range(ndims)]
+        # `hi`: the domain's upper corner as the input file of the run spelled it (0.9), while AMReX computes every box bound as
+        # lo + index * dx (0.8999999999999999): the two spellings of one face then differ by an ulp or two
+        if hi is not None:
+            self.hi = list(hi)
+        # `header_digits`: a writer that prints its geometry with n significant digits; the numbers in the header ARE the
+        # geometry (the oracles use them as read), so everything is rounded here once
+        self.header_digits = header_digits
+        if header_digits:
+            r = lambda x: x if core.is_sym(x) else float('%.*g' % (header_digits, x))
+            self.lo = [r(x) for x in self.lo]
+            self.hi = [r(x) for x in self.hi]
+            self.dx = [[r(x) for x in lv] for lv in self.dx]
         self.boxes = [[(tuple(b[0]), tuple(b[1])) for b in lv] for lv in boxes]
         if layout is None:
             layout = [[(0, i) for i in range(len(lv))] for lv in self.boxes]
@@ -90,8 +103,11 @@ class Ref:
     # -- geometry helpers
     def box_phys(self, l, b):
         blo, bhi = self.boxes[l][b]
-        return [[self.lo[d] + blo[d] * self.dx[l][d], self.lo[d] + (bhi[d] + 1) * self.dx[l][d]]
-                for d in range(self.ndims)]
+        out = [[self.lo[d] + blo[d] * self.dx[l][d], self.lo[d] + (bhi[d] + 1) * self.dx[l][d]]
+               for d in range(self.ndims)]
+        if self.header_digits:
+            out = [[x if core.is_sym(x) else float('%.*g' % (self.header_digits, x)) for x in pair] for pair in out]
+        return out
 
     def shape(self, l, b):
         blo, bhi = self.boxes[l][b]
